@@ -589,8 +589,15 @@ func checkTasks(p *TaskPlan, rc *simkit.RunCtx) {
 					continue
 				}
 				if e.BeginT > gov.At+bound {
+					all := ""
+					for _, o := range s.ops {
+						all += fmt.Sprintf(" [t%d %s at %v for %v]", o.Task, o.Op, o.T, o.At)
+					}
+					for _, x := range s.execs {
+						all += fmt.Sprintf(" {t%d ran %v}", x.Task, x.BeginT)
+					}
 					rc.Fail("C07.late", "a scheduled task was started long after its scheduled time although nothing but a few momentary tasks was due",
-						fmt.Sprintf("task %d: scheduled for %v (operation at %v), started at %v, bound %v", i, gov.At, gov.T, e.BeginT, bound))
+						fmt.Sprintf("task %d: scheduled for %v (operation at %v), started at %v, bound %v;%s", i, gov.At, gov.T, e.BeginT, bound, all))
 					return
 				}
 				rc.Probe("calm-schedule-judged")
